@@ -30,6 +30,9 @@ def run(ctx):
     ctx.each(flowalg.accumulator_rule, ctx, repo, "R07f", [("model", "Characteristic.update"), ("model", "Characteristic.vals")], 4, "the characteristic sums")
     # the solved initial size reaches a timed compartment through TimedCompartment.__setitem__ (and the flush through dest[0] +=): the rows must add up to the value
     from .c01 import r01g
+    from .c04 import r04e
+
+    ctx.each(r04e, ctx, repo)  # the initial flush uses proportions that have been evaluated at the first index
     from . import common as K_
 
     ctx.each(r01g, ctx, repo, K_.types(repo))
